@@ -3,7 +3,7 @@ branches; a singular primitive in the unselected branch must get a sanitised ope
 from __future__ import annotations
 
 from ..core import Report
-from ..model import DIST, Program
+from ..model import DIST, TRANSFORMED, Program
 from ..refs import eval_ref_function, eval_ref_method
 from ..terms import C, Interp, find_unknown, has_unknown, is_const, key, mk_not, same, show, subst, walk
 from .bij import COND, SELF, X, bijection_classes, is_stub, method_site, method_term
@@ -110,6 +110,12 @@ def methods_to_check(prog):
     for c in prog.subclasses(DIST):
         if "_log_prob" in c.methods:
             t = Interp(prog).eval_method(c, "_log_prob", [X, COND])
+            if has_unknown(t):
+                # a core working on the flattened form: merge_transforms() kept as an opaque (Transformed) object - what
+                # this rule looks at is the where / singular-primitive hygiene of the core's own arithmetic
+                t2 = Interp(prog, no_inline={TRANSFORMED + ".merge_transforms"}).eval_method(c, "_log_prob", [X, COND])
+                if not has_unknown(t2):
+                    t = t2
             out.append((c, "_log_prob", t))
     return out
 
